@@ -41,7 +41,11 @@ def gen_poly(rng, quick=True, max_rows=None, max_cols=None, wide=False):
         elif t < 0.45: b = lo - rng.randint(0, 2)         # redundant row
         else: b = rng.randint(lo, hi) if lo <= hi else lo
         rows.append([b, cs])
-    return {"bnds": bnds, "rows": rows}
+    out = {"bnds": bnds, "rows": rows}
+    r = rng.random()
+    if r < 0.3:
+        out["first"] = rng.choice(["bool0", "bool0", "int0", "named"])
+    return out
 
 
 def gen_chain(rng, quick=True):
@@ -81,7 +85,11 @@ def gen_chain(rng, quick=True):
 def real_poly(p, ids=None, dtype=None):
     nc = len(p["bnds"])
     ids = ids or [f"x{j}" for j in range(nc)]
-    vs = [puan.variable.support_vector_variable()] + [puan.variable(i, tuple(b)) for i, b in zip(ids, p["bnds"])]
+    # how the caller declares the variable of the support (constant) column: it is not a decision variable, and its
+    # declaration must not influence anything computed about the columns of A
+    first = {"bool0": lambda: puan.variable("0"), "int0": lambda: puan.variable(0, dtype="int"),
+             "named": lambda: puan.variable("b", (1, 1))}.get(p.get("first"), puan.variable.support_vector_variable)()
+    vs = [first] + [puan.variable(i, tuple(b)) for i, b in zip(ids, p["bnds"])]
     arr = np.array([[r[0]] + list(r[1]) for r in p["rows"]], dtype=np.int64).reshape(len(p["rows"]), nc + 1)
     if dtype is not None:
         return pnd.ge_polyhedron(arr, variables=vs, dtype=np.dtype(dtype).type)
